@@ -4,7 +4,7 @@
     injectively and every link that lies on a line is a link of the host; with
     the per-pattern validation [lines_cover] this is every link of the pattern. *)
 From PM Require Import Model.Prelude Model.Domain Model.Constraint Model.BindMaps Model.DomString
-  Model.DomPGKeys Model.DomPG Model.DomPGPattern Cert.PGCert Cert.LabCheck Model.Automaton Model.Traversal Proofs.PGTreeProofs Proofs.PGLawful Proofs.PGComplete.
+  Model.DomPGKeys Model.DomPG Model.DomPGPattern Cert.PGCert Cert.LabCheck Model.Automaton Model.Traversal Model.Scheme Model.Matchers Spec.TopoSpec Proofs.SchemeProofs Proofs.SingleSound Proofs.PGTreeProofs Proofs.PGLawful Proofs.PGComplete.
 Local Open Scope N_scope.
 
 Section Embed.
@@ -221,5 +221,34 @@ Proof.
     destruct n as [|n]; cbn in *; [inversion Ef; subst; eauto|eauto]. }
   destruct Hp as [P [root [Hp [CV Hcov]]]].
   exists P, root, cs, nk. split; auto. split; auto.
+  apply (pg_constraints_embed P root h m cs nk CV Hcov). intros c Hc. apply pgval_holds. auto.
+Qed.
+
+(** ** the single-pattern matcher on port graphs reports embeddings only *)
+Lemma pg_req_acyclic : TopoSpec.acyclic pg_req.
+Proof.
+  exists (fun k => match k with PathRoot i => N.to_nat i | AlongPath r _ _ => S (N.to_nat r) end).
+  intros k r. destruct k as [i|r0 p l]; cbn [pg_req].
+  - destruct (N.eqb_spec i 0); [intros []|]. intros [<-|[]]. lia.
+  - intros [<-|[]]. lia.
+Qed.
+
+Theorem pg_single_embeds (P : pghost) (root : N) cs nk h fuel r :
+  pg_cvec_full P root = Ok (cs, nk) -> lines_cover P root = true ->
+  Matchers.single pg_dom fuel cs h = Ok r ->
+  forall m, In m r ->
+    (forall a oa b ib, In (a, oa, b, ib) (pg_links P) ->
+       exists va vb, image m nk a = Some va /\ image m nk b = Some vb /\ In (va, oa, vb, ib) (pg_links h))
+    /\ Dist m nk.
+Proof.
+  intros CV Hcov S m Hin. unfold Matchers.single, Matchers.single_ext in S.
+  destruct (Matchers.requested pg_dom fuel [] cs) as [reqk| |] eqn:Rq; cbn [rbind] in S; try discriminate.
+  unfold Matchers.requested, Matchers.amb in Rq. cbn [app] in Rq.
+  change (keqb pg_dom) with pgkey_eqb in Rq. change (req pg_dom) with pg_req in Rq.
+  destruct (SchemeProofs.all_missing_ok pgkey_eqb pg_req pgkey_eqb_eq fuel _ [] reqk pg_req_acyclic Rq) as [_ [Hinc _]].
+  assert (Hcovk : forall c, In c cs -> incl (cargs c) reqk).
+  { intros c Hc k Hk. apply Hinc. exists k. split; [apply in_flat_map; eauto|]. constructor. tauto. }
+  destruct (SingleSound.single_loop_from_empty_sound pg_dom (fun _ _ => True) (fun _ => true) pg_lawful
+              cs reqk eq_refl Hcovk h fuel r S m Hin) as [_ [Hall _]].
   apply (pg_constraints_embed P root h m cs nk CV Hcov). intros c Hc. apply pgval_holds. auto.
 Qed.
